@@ -73,6 +73,7 @@ impl<R: Read + Seek> ReadBox<&mut R> for TrakBox {
                     "trak box contains a box with a larger size than it",
                 ));
             }
+            check_child_size(s)?;
 
             match name {
                 BoxType::TkhdBox => {
